@@ -190,7 +190,15 @@ impl Property for C11 {
                     let fate = net.send(ctx, 2, 3 + generation, 4, blob.clone());
                     if let Fate::Sent(copies) = fate {
                         generation += 1;
-                        let mut importer = ctx.os.with_node(3 + generation as u64, || pp::Server::new(vec![])).map_err(|e| Violation::new("c11.setup", "setup", e.to_string()))?;
+                        // the importer is a fresh instance, or (half of the time, when there is one) the
+                        // lagging SAME-KEY instance that now catches up by importing the newer state
+                        let reuse_lagging = lagging.is_some() && ctx.ch.chance(1, 2);
+                        let mut importer = if reuse_lagging {
+                            ctx.stats.probe("lagging_instance_caught_up_by_import");
+                            lagging.take().unwrap().0
+                        } else {
+                            ctx.os.with_node(3 + generation as u64, || pp::Server::new(vec![])).map_err(|e| Violation::new("c11.setup", "setup", e.to_string()))?
+                        };
                         for (_, p) in copies {
                             // duplicated deliveries import the same state twice
                             let ks: pp::ServerKeyState = bincode::deserialize(&p.bytes).map_err(|e| Violation::new("c11.import", "import", e.to_string()))?;
